@@ -12,7 +12,7 @@ CHECK = {
   'level': 'model_checking',
   'rule': ('every directed graph (self-loops, cycles, sharing) on n nodes x every assignment of node representations '
            '{plain struct, Ref, Box, Array<Ref>, List<Ref>, Table<Ref,Ref>, Tree<Ref,Ref>, heap Tuple} x every assignment of a root kind per node '
-           '{none, stack slot, new_root, root-registered Ref holder, thread-local entry} x {forced, threshold-triggered} collection x two allocation orders is built on the real heap '
+           '{none, stack slot, new_root, root-registered Ref holder, thread-local entry, callee-saved register (r12; gcc -O0 library)} x {forced, threshold-triggered} collection x two allocation orders is built on the real heap '
            'under a fresh collector; after the collection every node the shadow graph reaches from the declared roots must still be registered and read back intact. '
            'states = distinct shapes, transitions = executions. distinct_nontrivial = executions in which some but not all nodes are reachable. '
            'Plus container size ladders (every rehash/realloc boundary, grow and shrink) and chain lengths 10^2..10^5/10^6 in forked children. '
@@ -23,7 +23,7 @@ CHECK = {
   },
   'assumptions': [
     'reclamation of unreachable nodes is only counted (unreachable_reclaimed), never demanded',
-    'register roots: a pointer held only in a callee-saved register is not constructed here (see DESIGN.md section 7)',
+    'register roots: one node held only in r12 (GNU global register variable) against the library built -O0, so that only the collector\'s own register flush can bring it into the scanned range; other callee-saved registers are assumed to behave like r12',
     'a Box owns its target: shapes where a Box target has another referrer or its own root are out of contract and skipped',
     'fresh collector per execution created exactly as Thread_Init_Run does; GC.c compiled into the harness for struct GC / GC_Mark / GC_Sweep',
   ],
@@ -31,10 +31,12 @@ CHECK = {
     'quick': (shapes('n2', 'base', 2, 'prbaltTu', '-snrt', 1, 'forced') + shapes('n2', 'base', 2, 'prbaltTu', '-snrt', 1, 'threshold')
               + shapes('n2asan', 'asan', 2, 'prbtu', '-snt', 1, 'forced')
               + shapes('n3', 'base', 3, 'pbt', '-st', 4, 'forced') + shapes('n3', 'base', 3, 'pbt', '-st', 4, 'threshold')
+              + shapes('n2reg', 'cfg-gcc-O0', 2, 'prbaltTu', '-g', 1, 'forced') + shapes('n2reg', 'cfg-gcc-O0', 2, 'prbaltTu', '-g', 1, 'threshold')
               + [R('ladder', 'base', 'mode=ladder'), R('ladder-asan', 'asan', 'mode=ladder'), R('chain', 'base', 'mode=chain', 'maxlen=100000')]),
     'thorough': (shapes('n2', 'base', 2, 'prbaltTu', '-snrt', 1, 'forced') + shapes('n2', 'base', 2, 'prbaltTu', '-snrt', 1, 'threshold')
               + shapes('n2asan', 'asan', 2, 'prbaltTu', '-snrt', 2, 'forced')
               + shapes('n3a', 'base', 3, 'prbtu', '-snrt', 10, 'forced') + shapes('n3b', 'base', 3, 'alT', '-sn', 2, 'threshold')
+              + shapes('n2reg', 'cfg-gcc-O0', 2, 'prbaltTu', '-gs', 1, 'forced') + shapes('n2reg', 'cfg-gcc-O0', 2, 'prbaltTu', '-gs', 1, 'threshold') + shapes('n3reg', 'cfg-gcc-O0', 3, 'pbtu', '-g', 2, 'forced')
               + [R('ladder', 'base', 'mode=ladder'), R('ladder-asan', 'asan', 'mode=ladder'), R('chain', 'base', 'mode=chain', 'maxlen=1000000', timeout=3000)]),
   },
 }
